@@ -1,32 +1,488 @@
 ------------------------------ MODULE Conform ------------------------------
 (***************************************************************************)
 (* One conformance predicate per public operation: the relation between    *)
-(* logged arguments and the logged observation that the properties allow.  *)
+(* logged arguments (a), the logged observation (o) and - for stateful      *)
+(* calls - the tracked pre-state, exactly as loose as the properties allow: *)
+(* equality where they say equal / on the nose / unchanged, isomorphism of   *)
+(* open hypergraphs where they say isomorphic, "any conforming answer"       *)
+(* where the contract leaves a choice.  A panic never conforms.              *)
 (***************************************************************************)
-EXTENDS StrictRep, Json
-
-LaxEmpty == [nodes |-> <<>>, edges |-> <<>>, adj |-> <<>>, ql |-> <<>>, qr |-> <<>>, sources |-> <<>>, targets |-> <<>>]
+EXTENDS VarBuilder, Json
 
 IsSome(o) == o.tag = "some"
 IsNone(o) == o.tag = "none"
 IsVal(o) == o.tag = "val"
+IsOk(o) == o.tag = "ok"
+IsErr(o) == o.tag = "err"
+ValIs(o, x) == o.tag = "val" /\ o.val = x
+OptIs(o, defined, x) == IF defined THEN o.tag = "some" /\ o.val = x ELSE o.tag = "none"
 
-\* C01 (+C05): Some iff types agree; deep well-formed; isomorphic to the reference gluing
-ConfCompose(a, o) ==
-  LET f == Abs(a.f)  g == Abs(a.g) IN
-  IF Composable(f, g)
-  THEN IsSome(o) /\ WFStrict(o.val) /\ Iso(Abs(o.val), ComposeRef(f, g))
-  ELSE IsNone(o)
-\* C02 (+C05): equality, field for field, with the canonical packing of the juxtaposition
-ConfTensor(a, o) == IsVal(o) /\ o.val = Pack(TensorRef(Abs(a.f), Abs(a.g)))
-
-ConfEvent(st, ev) ==
-  CASE ev.op = "strict.compose" -> ConfCompose(ev.args, ev.obs)
-    [] ev.op = "strict.compose_shr" -> ConfCompose(ev.args, ev.obs)
-    [] ev.op = "strict.tensor" -> ConfTensor(ev.args, ev.obs)
-    [] ev.op = "strict.tensor_bitor" -> ConfTensor(ev.args, ev.obs)
+(* =========================================================== C07 arrays *)
+Perms(n) == {p \in [1 .. n -> Range0(n)] : RangeOf(p) = Range0(n)}
+ConfArr(op, a, o) ==
+  CASE op = "arr.gather" \/ op = "arr.gather_s" -> ValIs(o, Gather(a.a, a.idx))
+    [] op = "arr.scatter" \/ op = "arr.scatter_s" -> IsVal(o) /\ ScatterOK(a.a, a.idx, a.n, o.val)
+    [] op = "arr.scatter_assign" -> IsVal(o) /\ ScatterAssignOK(a.a, a.idx, a.vals, o.val)
+    [] op = "arr.scatter_assign_constant" -> ValIs(o, ScatterAssignConst(a.a, a.idx, a.c))
+    [] op = "arr.scatter_sub_assign" -> ValIs(o, ScatterSubAssign(a.a, a.idx, a.rhs))
+    [] op = "arr.concatenate" \/ op = "arr.concatenate_s" -> ValIs(o, a.a \o a.b)
+    [] op = "arr.fill" \/ op = "arr.fill_s" -> ValIs(o, Fill(a.x, a.n))
+    [] op = "arr.empty" -> ValIs(o, <<>>)
+    [] op = "arr.len" -> ValIs(o, Len(a.a))
+    [] op = "arr.is_empty" -> ValIs(o, Len(a.a) = 0)
+    [] op = "arr.get" -> ValIs(o, a.a[a.i + 1])
+    [] op = "arr.from_slice" -> ValIs(o, a.a)
+    [] op = "arr.to_range" -> ValIs(o, RangeOfForm(a.r, a.n))
+    [] op = "arr.get_range" \/ op = "arr.get_range_s" -> ValIs(o, Slice(a.a, a.r))
+    [] op = "arr.set_range" -> ValIs(o, SetRange(a.a, a.r, a.v))
+    [] op = "arr.arange" -> ValIs(o, Arange(a.lo, a.hi))
+    [] op = "arr.cumulative_sum" -> ValIs(o, CumSum(a.a))
+    [] op = "arr.sum" -> ValIs(o, SumSeq(a.a))
+    [] op = "arr.max" -> OptIs(o, HasMax(a.a), IF HasMax(a.a) THEN MaxOf(a.a) ELSE 0)
+    [] op = "arr.segmented_sum" -> ValIs(o, SegSum(a.sizes, a.x))
+    [] op = "arr.repeat" -> ValIs(o, Repeat(a.counts, a.x))
+    [] op = "arr.segmented_arange" -> ValIs(o, SegArange(a.sizes))
+    [] op = "arr.quot_rem" -> IsVal(o) /\ o.val.q = Quot(a.a, a.d) /\ o.val.r = Rem(a.a, a.d)
+    [] op = "arr.mul_constant_add" -> ValIs(o, MulConstAdd(a.a, a.c, a.x))
+    [] op = "arr.add" -> ValIs(o, AddArr(a.a, a.b))
+    [] op = "arr.sub" -> ValIs(o, SubArr(a.a, a.b))
+    [] op = "arr.add_const" -> ValIs(o, AddConst(a.c, a.a))
+    [] op = "arr.argsort" -> IsVal(o) /\ ArgsortOK(a.a, o.val)
+    [] op = "arr.sort_by" -> IsVal(o) /\ \E p \in Perms(Len(a.key)) : ArgsortOK(a.key, p) /\ o.val = Gather(a.vals, p)
+    [] op = "arr.bincount" -> ValIs(o, Bincount(a.a, a.size))
+    [] op = "arr.sparse_bincount" -> IsVal(o) /\ SparseBincountOK(a.a, o.val.keys, o.val.counts)
+    [] op = "arr.zero" -> ValIs(o, ZeroIdx(a.a))
+    [] op = "arr.connected_components" -> IsVal(o) /\ ComponentsOK(a.src, a.tgt, a.n, o.val.labels, o.val.k)
     [] OTHER -> FALSE
 
-Classify(ev) == IF ev.obs.tag = "panic" THEN "panic" ELSE IF ev.obs.tag = "unknown_op" THEN "unknown-op" ELSE "wrong"
-NextTracked(st, ev) == st
+(* =========================================================== C06 finite functions *)
+ConfFF(op, a, o) ==
+  CASE op = "ff.new" -> OptIs(o, FFNewAccepts(a.table, a.target), FF(a.table, a.target))
+    [] op = "ff.identity" -> ValIs(o, FIdentity(a.n))
+    [] op = "ff.source" -> ValIs(o, Src(a.f))
+    [] op = "ff.target" -> ValIs(o, a.f.target)
+    [] op = "ff.compose" \/ op = "ff.compose_shr" -> OptIs(o, FComposable(a.f, a.g), IF FComposable(a.f, a.g) THEN FCompose(a.f, a.g) ELSE 0)
+    [] op = "ff.initial" -> ValIs(o, FInitial(a.a))
+    [] op = "ff.to_initial" -> ValIs(o, FToInitial(a.f))
+    [] op = "ff.terminal" -> ValIs(o, FTerminal(a.a))
+    [] op = "ff.constant" -> ValIs(o, FConstant(a.a, a.x, a.b))
+    [] op = "ff.inj0" -> ValIs(o, FInj0(a.a, a.b))
+    [] op = "ff.inj1" -> ValIs(o, FInj1(a.a, a.b))
+    [] op = "ff.inject0" -> ValIs(o, FInject0(a.f, a.b))
+    [] op = "ff.inject1" -> ValIs(o, FInject1(a.f, a.a))
+    [] op = "ff.coproduct" \/ op = "ff.coproduct_add" -> OptIs(o, FCoproductDefined(a.f, a.g), FCoproduct(a.f, a.g))
+    [] op = "ff.tensor" \/ op = "ff.tensor_bitor" -> ValIs(o, FTensor(a.f, a.g))
+    [] op = "ff.twist" -> ValIs(o, FTwist(a.a, a.b))
+    [] op = "ff.transpose" -> ValIs(o, FTranspose(a.a, a.b))
+    [] op = "ff.cumulative_sum" -> ValIs(o, FCumulativeSum(a.f))
+    [] op = "ff.injections" -> OptIs(o, FInjectionsDefined(a.s, a.a), IF FInjectionsDefined(a.s, a.a) THEN FInjections(a.s, a.a) ELSE 0)
+    [] op = "ff.is_injective" -> ValIs(o, FIsInjective(a.f))
+    [] op = "ff.eq" -> ValIs(o, a.f = a.g)
+    [] op = "ff.coequalizer" -> IF FParallel(a.f, a.g) THEN IsSome(o) /\ WFFF(o.val) /\ IsCoequalizer(a.f, a.g, o.val) ELSE IsNone(o)
+    [] op = "ff.coequalizer_universal" ->
+         IF UniversalDefined(a.q, a.f.table)
+         THEN IsSome(o) /\ o.val.target = a.f.target /\ IsUniversal(a.q, a.f.table, o.val.table)
+         ELSE IsNone(o)
+    [] op = "ff.universal_labels" ->
+         IF UniversalDefined(a.q, a.h) THEN IsSome(o) /\ IsUniversal(a.q, a.h, o.val) ELSE IsNone(o)
+    [] op = "ff.compose_semifinite" -> OptIs(o, a.f.target = Len(a.labels), IF a.f.target = Len(a.labels) THEN Thru(a.f.table, a.labels) ELSE 0)
+    [] OTHER -> FALSE
+
+(* =========================================================== C08 segmented arrays *)
+\* result is a segmented array of finite functions denoting `segs`, values into `tgt`
+IsSegFF(x, segs, tgt) == WFSegFF(x) /\ SegsFF(x) = segs /\ x.values.target = tgt
+IsSegSF(x, segs) == WFSegSF(x) /\ SegsSF(x) = segs
+RECURSIVE IterRun(_, _, _, _)
+\* replay a script of iterator calls on the iterator machine; outs are the recorded answers
+IterRun(it, script, outs, i) ==
+  IF i > Len(script) THEN TRUE
+  ELSE LET c == script[i]  r == outs[i] IN
+       CASE c = "next" -> LET e == IterNextItem(it) IN
+                            /\ (IF e.tag = "some" THEN r.tag = "some" /\ r.val = e.val ELSE r.tag = "none")
+                            /\ IterRun(IterAdvance(it), script, outs, i + 1)
+         [] c = "len" -> r.tag = "val" /\ r.val = IterRemaining(it) /\ IterRun(it, script, outs, i + 1)
+         [] c = "size_hint" -> /\ r.tag = "val" /\ r.val.lo = IterRemaining(it)
+                               /\ r.val.hi.tag = "some" /\ r.val.hi.val = IterRemaining(it)
+                               /\ IterRun(it, script, outs, i + 1)
+ConfIC(op, a, o) ==
+  CASE op = "ic.new_ff" -> OptIs(o, ICNewAccepts(a.sources, Len(a.values.table)), IC(a.sources, a.values))
+    [] op = "ic.new_sf" -> OptIs(o, ICNewAccepts(a.sources, Len(a.values)), IC(a.sources, a.values))
+    [] op = "ic.from_semifinite_ff" ->
+         OptIs(o, ICFromSemifiniteAccepts(a.sizes, Len(a.values.table)), IC(FF(a.sizes, Len(a.values.table) + 1), a.values))
+    [] op = "ic.from_semifinite_sf" ->
+         OptIs(o, ICFromSemifiniteAccepts(a.sizes, Len(a.values)), IC(FF(a.sizes, Len(a.values) + 1), a.values))
+    [] op = "ic.singleton_ff" -> IsVal(o) /\ IsSegFF(o.val, <<a.values.table>>, a.values.target)
+    [] op = "ic.singleton_sf" -> IsVal(o) /\ IsSegSF(o.val, <<a.values>>)
+    [] op = "ic.elements_ff" -> IsVal(o) /\ IsSegFF(o.val, LElements(a.values.table), a.values.target)
+    [] op = "ic.elements_sf" -> IsVal(o) /\ IsSegSF(o.val, LElements(a.values))
+    [] op = "ic.initial" -> IsVal(o) /\ IsSegFF(o.val, <<>>, a.target)
+    [] op = "ic.len_ff" -> ValIs(o, NumSegs(a.ic))
+    [] op = "ic.coproduct_ff" ->
+         IF a.a.values.target = a.b.values.target
+         THEN IsSome(o) /\ IsSegFF(o.val, SegsFF(a.a) \o SegsFF(a.b), a.a.values.target) ELSE IsNone(o)
+    [] op = "ic.coproduct_sf" -> IsSome(o) /\ IsSegSF(o.val, SegsSF(a.a) \o SegsSF(a.b))
+    [] op = "ic.tensor" -> IsVal(o) /\ IsSegFF(o.val, LTensorFF(SegsFF(a.a), SegsFF(a.b), a.a.values.target), a.a.values.target + a.b.values.target)
+    [] op = "ic.map_indexes_ff" ->
+         IF a.x.target = NumSegs(a.ic) THEN IsSome(o) /\ IsSegFF(o.val, LMapIndexes(SegsFF(a.ic), a.x.table), a.ic.values.target) ELSE IsNone(o)
+    [] op = "ic.map_indexes_sf" ->
+         IF a.x.target = NumSegs(a.ic) THEN IsSome(o) /\ IsSegSF(o.val, LMapIndexes(SegsSF(a.ic), a.x.table)) ELSE IsNone(o)
+    [] op = "ic.indexed_values_ff" ->
+         IF a.x.target = NumSegs(a.ic) THEN IsSome(o) /\ o.val = FF(FlatSeq(LMapIndexes(SegsFF(a.ic), a.x.table)), a.ic.values.target) ELSE IsNone(o)
+    [] op = "ic.indexed_values_sf" ->
+         IF a.x.target = NumSegs(a.ic) THEN IsSome(o) /\ o.val = FlatSeq(LMapIndexes(SegsSF(a.ic), a.x.table)) ELSE IsNone(o)
+    [] op = "ic.map_values" ->
+         IF a.ic.values.target = Src(a.x) THEN IsSome(o) /\ IsSegFF(o.val, LMapValues(SegsFF(a.ic), a.x.table), a.x.target) ELSE IsNone(o)
+    [] op = "ic.map_semifinite" ->
+         IF a.ic.values.target = Len(a.labels) THEN IsSome(o) /\ IsSegSF(o.val, LMapValues(SegsFF(a.ic), a.labels)) ELSE IsNone(o)
+    [] op = "ic.flatmap" -> IsVal(o) /\ IsSegFF(o.val, LFlatmap(SegsFF(a.a), SegsFF(a.b)), a.b.values.target)
+    [] op = "ic.flatmap_sources_ff" -> IsVal(o) /\ IsSegFF(o.val, LFlatmapSources(Sizes(a.a), SegsFF(a.b)), a.b.values.target)
+    [] op = "ic.flatmap_sources_sf" -> IsVal(o) /\ IsSegSF(o.val, LFlatmapSources(Sizes(a.a), SegsSF(a.b)))
+    [] op = "ic.iter_ff" -> IsVal(o) /\ Len(o.val) = Len(a.script) /\
+         IterRun(IterInit([k \in 1 .. NumSegs(a.ic) |-> FF(SegsFF(a.ic)[k], a.ic.values.target)]), a.script, o.val, 1)
+    [] op = "ic.iter_sf" -> IsVal(o) /\ Len(o.val) = Len(a.script) /\ IterRun(IterInit(SegsSF(a.ic)), a.script, o.val, 1)
+    [] op = "ic.iter_slices" -> ValIs(o, SegsSF(a.ic))
+    [] op = "ops.new" -> OptIs(o, OpsNewAccepts(a.x, a.a, a.b), [x |-> a.x, a |-> a.a, b |-> a.b])
+    [] op = "ops.singleton" -> IsVal(o) /\ o.val.x = <<a.x>> /\ IsSegSF(o.val.a, <<a.a>>) /\ IsSegSF(o.val.b, <<a.b>>)
+    [] op = "ops.len" -> ValIs(o, Len(a.ops.x))
+    [] op = "ops.iter" -> ValIs(o, OpsTriples(a.ops))
+    [] OTHER -> FALSE
+
+(* =========================================================== C01-C05, C17 strict diagrams *)
+\* a returned strict diagram: deep well-formed and isomorphic to the reference
+IsDiagram(x, ref) == WFStrict(x) /\ Iso(Abs(x), ref)
+OptDiagram(o, defined, ref) == IF defined THEN IsSome(o) /\ IsDiagram(o.val, ref) ELSE IsNone(o)
+HyperErrFails(h, v) ==
+  CASE v = "SourcesCount" -> NumSegs(h.s) # Len(h.x)
+    [] v = "TargetsCount" -> NumSegs(h.t) # Len(h.x)
+    [] v = "SourcesSet" -> h.s.values.target # Len(h.w)
+    [] v = "TargetsSet" -> h.t.values.target # Len(h.w)
+    [] OTHER -> FALSE
+OpenErrFails(f, v) ==
+  CASE v = "CospanSourceType" -> f.s.target # Len(f.h.w)
+    [] v = "CospanTargetType" -> f.t.target # Len(f.h.w)
+    [] OTHER -> HyperErrFails(f.h, v)
+OpsRef(ops) == TensorAll([i \in 1 .. Len(ops.x) |-> SingletonRef(ops.x[i], SegsSF(ops.a)[i], SegsSF(ops.b)[i])])
+TensorH(g, h) == [w |-> g.w \o h.w, e |-> g.e \o [i \in 1 .. Len(h.e) |-> ShiftE(h.e[i], Len(g.w))]]
+\* C01: Some iff types agree; deep well-formed; isomorphic to the reference gluing
+ConfCompose(a, o) == LET f == Abs(a.f)  g == Abs(a.g) IN OptDiagram(o, Composable(f, g), ComposeRef(f, g))
+\* both sides of a law: defined together, and isomorphic (each also to the reference when given)
+LawIso(l, r, defined) == IF defined THEN IsSome(l) /\ IsSome(r) /\ WFStrict(l.val) /\ WFStrict(r.val) /\ Iso(Abs(l.val), Abs(r.val))
+                         ELSE IsNone(l) /\ IsNone(r)
+ConfStrict(op, a, o) ==
+  CASE op = "hyper.new" ->
+         LET h == HG(a.s, a.t, a.w, a.x) IN
+         IF HyperNewAccepts(h) THEN IsOk(o) /\ o.val = h ELSE IsErr(o) /\ HyperErrFails(h, o.variant)
+    [] op = "strict.new" ->
+         LET f == SOH(a.s, a.t, a.h) IN
+         IF OpenNewAccepts(f) THEN IsOk(o) /\ o.val = f ELSE IsErr(o) /\ OpenErrFails(f, o.variant)
+    [] op = "hyper.empty" -> IsVal(o) /\ WFHyper(o.val) /\ AbsH(o.val) = [w |-> <<>>, e |-> <<>>]
+    [] op = "hyper.discrete" -> IsVal(o) /\ WFHyper(o.val) /\ AbsH(o.val) = [w |-> a.w, e |-> <<>>]
+    [] op = "hyper.is_discrete" -> ValIs(o, Len(a.h.x) = 0)
+    [] op = "hyper.coproduct" \/ op = "hyper.coproduct_add" -> ValIs(o, PackH(TensorH(AbsH(a.g), AbsH(a.h))))
+    [] op = "hyper.tensor_operations" ->
+         LET r == OpsRef(a.ops) IN
+         IsVal(o) /\ WFHyper(o.val) /\ Iso(OH(AbsH(o.val).w, AbsH(o.val).e, <<>>, <<>>), OH(r.w, r.e, <<>>, <<>>))
+    [] op = "hyper.coequalize_vertices" ->
+         LET p == AbsH(a.h) IN
+         IF Src(a.q) = Len(a.h.w) /\ ConstOnFibres(a.q, a.h.w)
+         THEN /\ IsSome(o) /\ WFHyper(o.val) /\ Len(o.val.w) = a.q.target /\ IsUniversal(a.q, a.h.w, o.val.w)
+              /\ AbsH(o.val).e = [i \in 1 .. Len(p.e) |-> MapE(p.e[i], a.q.table)]
+         ELSE IsNone(o)
+    [] op = "hyper.in_degree" -> ValIs(o, InDegree(AbsH(a.h), a.node))
+    [] op = "hyper.out_degree" -> ValIs(o, OutDegree(AbsH(a.h), a.node))
+    [] op = "hyper.is_acyclic" -> ValIs(o, NodeAcyclic(AbsH(a.h)))
+    [] op = "strict.is_acyclic" -> ValIs(o, NodeAcyclic(Abs(a.f)))
+    [] op = "strict.is_monogamous" -> ValIs(o, MonogamousDef(Abs(a.f)))
+    [] op = "strict.compose" \/ op = "strict.compose_shr" -> ConfCompose(a, o)
+    \* C02: equality, field for field, with the canonical packing of the juxtaposition
+    [] op = "strict.tensor" \/ op = "strict.tensor_bitor" -> ValIs(o, Pack(TensorRef(Abs(a.f), Abs(a.g))))
+    [] op = "strict.identity" -> IsVal(o) /\ IsDiagram(o.val, IdentityRef(a.w))
+    [] op = "strict.twist" -> IsVal(o) /\ IsDiagram(o.val, TwistRef(a.a, a.b))
+                              /\ StrictSrcType(o.val) = a.a \o a.b /\ StrictTgtType(o.val) = a.b \o a.a
+    [] op = "strict.dagger" -> ValIs(o, SOH(a.f.t, a.f.s, a.f.h))
+    [] op = "strict.spider" -> OptDiagram(o, a.s.target = Len(a.w) /\ a.t.target = Len(a.w), SpiderRef(a.s.table, a.t.table, a.w))
+    [] op = "strict.half_spider" -> OptDiagram(o, a.s.target = Len(a.w), SpiderRef(a.s.table, Arange(0, a.s.target), a.w))
+    [] op = "strict.singleton" -> IsVal(o) /\ IsDiagram(o.val, SingletonRef(a.x, a.a, a.b))
+                                  /\ StrictSrcType(o.val) = a.a /\ StrictTgtType(o.val) = a.b
+    [] op = "strict.tensor_operations" ->
+         LET r == OpsRef(a.ops) IN
+         IsVal(o) /\ IsDiagram(o.val, r) /\ StrictSrcType(o.val) = SrcType(r) /\ StrictTgtType(o.val) = TgtType(r)
+    [] op = "strict.source" -> ValIs(o, SrcType(Abs(a.f)))
+    [] op = "strict.target" -> ValIs(o, TgtType(Abs(a.f)))
+    [] op = "strict.unit" -> ValIs(o, <<>>)
+    (* ---- laws (C03, C04): both sides computed by the library ---- *)
+    [] op = "law.assoc" ->
+         LET f == Abs(a.f)  g == Abs(a.g)  h == Abs(a.h)  def == Composable(f, g) /\ Composable(g, h) IN
+         IsVal(o) /\ LawIso(o.val.lhs, o.val.rhs, def) /\ (def => Iso(Abs(o.val.lhs.val), ComposeRef(ComposeRef(f, g), h)))
+    [] op = "law.unit" ->
+         LET f == Abs(a.f) IN IsVal(o) /\ LawIso(o.val.lhs, o.val.rhs, TRUE) /\ Iso(Abs(o.val.lhs.val), f) /\ Iso(Abs(o.val.rhs.val), f)
+    [] op = "law.interchange" ->
+         LET f == Abs(a.f)  g == Abs(a.g)  h == Abs(a.h)  k == Abs(a.k)  def == Composable(f, g) /\ Composable(h, k) IN
+         \* the law speaks about the case where both composites exist; otherwise only the left side is determined
+         IsVal(o) /\ (IF def THEN LawIso(o.val.lhs, o.val.rhs, TRUE) /\ Iso(Abs(o.val.lhs.val), TensorRef(ComposeRef(f, g), ComposeRef(h, k)))
+                      ELSE IsNone(o.val.lhs))
+    [] op = "law.twist_natural" ->
+         LET f == Abs(a.f)  g == Abs(a.g) IN
+         IsVal(o) /\ LawIso(o.val.lhs, o.val.rhs, TRUE)
+           /\ Iso(Abs(o.val.lhs.val), ComposeRef(TensorRef(f, g), TwistRef(TgtType(f), TgtType(g))))
+    [] op = "law.twist_inverse" ->
+         IsVal(o) /\ LawIso(o.val.lhs, o.val.rhs, TRUE) /\ Iso(Abs(o.val.lhs.val), IdentityRef(a.a \o a.b))
+    [] op = "law.hexagon" ->
+         IsVal(o) /\ LawIso(o.val.lhs, o.val.rhs, TRUE) /\ LawIso(o.val.lhs2, o.val.rhs2, TRUE)
+           /\ Iso(Abs(o.val.lhs.val), TwistRef(a.a, a.b \o a.c)) /\ Iso(Abs(o.val.lhs2.val), TwistRef(a.a \o a.b, a.c))
+    [] op = "law.tensor_assoc" -> IsVal(o) /\ o.val.lhs = o.val.rhs /\ o.val.lhs = Pack(TensorRef(TensorRef(Abs(a.f), Abs(a.g)), Abs(a.h)))
+    [] op = "law.tensor_unit" -> IsVal(o) /\ o.val.lhs = a.f /\ o.val.rhs = a.f /\ o.val.unit = Pack(EmptyOH)
+    [] op = "law.dagger_compose" ->
+         LET f == Abs(a.f)  g == Abs(a.g)  def == Composable(f, g) IN
+         IsVal(o) /\ LawIso(o.val.lhs, o.val.rhs, def) /\ (def => Iso(Abs(o.val.lhs.val), DaggerRef(ComposeRef(f, g))))
+    [] op = "law.dagger_tensor" -> IsVal(o) /\ o.val.lhs = o.val.rhs /\ o.val.inv = a.f
+                                   /\ o.val.lhs = Pack(DaggerRef(TensorRef(Abs(a.f), Abs(a.g))))
+    [] op = "law.spider_fusion" ->
+         LET d1 == a.s1.target = Len(a.w1) /\ a.t1.target = Len(a.w1)
+             d2 == a.s2.target = Len(a.w2) /\ a.t2.target = Len(a.w2)
+             l == SpiderRef(a.s1.table, a.t1.table, a.w1)
+             r == SpiderRef(a.s2.table, a.t2.table, a.w2) IN
+         /\ IsVal(o) /\ OptDiagram(o.val.l, d1, l) /\ OptDiagram(o.val.r, d2, r)
+         /\ IF d1 /\ d2 /\ Composable(l, r)
+            THEN /\ IsSome(o.val.c) /\ WFStrict(o.val.c.val) /\ Len(o.val.c.val.h.x) = 0       \* again discrete
+                 /\ Iso(Abs(o.val.c.val), ComposeRef(l, r))                                    \* the fused spider
+            ELSE IsNone(o.val.c)
+    [] OTHER -> FALSE
+
+(* =========================================================== C15, C16, C18 *)
+ConfGraph(op, a, o) ==
+  CASE op = "strict.layer" ->
+         LET f == Abs(a.f) IN
+         /\ IsVal(o) /\ o.val.order.target = NE(f) /\ WFFF(o.val.order)
+         /\ ValidLayering(NE(f), Dep(f), o.val.order.table, o.val.unvisited)
+    [] op = "strict.layered_operations" ->
+         LET f == Abs(a.f) IN IsVal(o) /\ ValidGrouping(NE(f), Dep(f), o.val.layers, o.val.unvisited)
+    [] op = "hook.converse" -> IsVal(o) /\ WFSegFF(o.val) /\ o.val.values.target = NumSegs(a.r)
+                               /\ SameSegmentsUpToOrder(SegsFF(o.val), ConverseRef(SegsFF(a.r), a.r.values.target))
+    [] op = "hook.operation_adjacency" -> IsVal(o) /\ WFSegFF(o.val) /\ o.val.values.target = Len(a.h.x)
+                               /\ SameSegmentsUpToOrder(SegsFF(o.val), OpAdjacencyRef(AbsH(a.h)))
+    [] op = "hook.node_adjacency" -> IsVal(o) /\ WFSegFF(o.val) /\ o.val.values.target = Len(a.h.w)
+                               /\ SameSegmentsUpToOrder(SegsFF(o.val), NodeAdjacencyRef(AbsH(a.h)))
+    [] op = "hook.indegree" -> IsVal(o) /\ WFFF(o.val) /\ o.val.table = IndegreeOf(SegsFF(a.adj))
+    [] op = "hook.kahn" -> LET adj == SegsFF(a.adj) IN
+                           IsVal(o) /\ ValidLayering(Len(adj), AdjToDep(adj), o.val.order, o.val.unvisited)
+    [] op = "strict.eval" ->
+         LET f == Abs(a.f) IN
+         IF ~DepAcyclic(f) THEN IsNone(o)
+         ELSE /\ IsSome(o)
+              /\ (SingleWriter(f) => /\ o.val = EvalRef(f, a.inputs)
+                                     /\ SameMultiset(FlatSeq(o.batches), EdgeCalls(f, a.inputs)))   \* every hyperedge once, on the reference inputs
+    [] op = "arrow.new" ->
+         LET g == AbsH(a.source)  h == AbsH(a.target) IN
+         IF IsMorphism(g, h, a.w, a.x) THEN IsOk(o) ELSE IsErr(o) /\ VariantFails(g, h, a.w, a.x, o.variant)
+    [] op = "arrow.is_monomorphism" -> ValIs(o, IsMono(a.w, a.x))
+    [] op = "arrow.is_convex_subgraph" -> ValIs(o, ConvexRef(AbsH(a.target), a.w, a.x))
+    [] OTHER -> FALSE
+
+(* =========================================================== C12-C14 functors and optics *)
+FAbs(F) == [obj |-> F.obj, ops |-> [i \in 1 .. Len(F.ops) |-> [l |-> F.ops[i].l, a |-> F.ops[i].a, b |-> F.ops[i].b, img |-> Abs(F.ops[i].img)]]]
+IsoPair(x, y) == WFStrict(x) /\ WFStrict(y) /\ Iso(Abs(x), Abs(y))
+ConfFunctor(op, a, o) ==
+  CASE op = "functor.map_arrow" ->
+         LET F == FAbs(a.F)  f == Abs(a.f)  r == Substitute(F, f) IN
+         IsVal(o) /\ IsDiagram(o.val, r) /\ StrictSrcType(o.val) = FType(F, SrcType(f)) /\ StrictTgtType(o.val) = FType(F, TgtType(f))
+    [] op = "functor.map_object" -> IsVal(o) /\ IsSegSF(o.val, FObjSeq(FAbs(a.F), a.w))
+    [] op = "functor.identity" -> IsVal(o) /\ IsDiagram(o.val, Abs(a.f))
+    [] op = "functor.laws" ->
+         LET F == FAbs(a.F)  f == Abs(a.f)  g == Abs(a.g)  v == o.val IN
+         /\ IsVal(o)
+         /\ IsDiagram(v.Ff, Substitute(F, f)) /\ IsDiagram(v.Fg, Substitute(F, g))
+         /\ (IF Composable(f, g) THEN IsSome(v.F_fg) /\ IsSome(v.Ff_Fg) /\ IsoPair(v.F_fg.val, v.Ff_Fg.val) ELSE IsNone(v.F_fg))
+         /\ IsoPair(v.F_tensor, v.tensor_F)
+         /\ IsoPair(v.F_dagger, v.dagger_F)
+         /\ IsDiagram(v.F_id, IdentityRef(FType(F, SrcType(f))))
+         /\ IsDiagram(v.F_twist, TwistRef(FType(F, SrcType(f)), FType(F, SrcType(g))))
+    [] op = "laxf.dyn_map_arrow" ->
+         LET F == FAbs(a.F)  f == Strictify(a.f) IN
+         IsVal(o) /\ WFLax(o.val) /\ LaxIsStrict(o.val) /\ Iso(LaxToPlain(o.val), Substitute(F, f))
+    [] op = "laxf.identity" -> IsVal(o) /\ WFLax(o.val) /\ LaxConsistent(o.val) /\ Iso(Strictify(o.val), Strictify(a.f))
+    [] op = "laxf.try_define_map_arrow" ->
+         IF ~LaxIsStrict(a.f) THEN IsNone(o)
+         ELSE LET F == FAbs(a.F) IN
+              IsSome(o) /\ WFLax(o.val) /\ LaxConsistent(o.val) /\ Iso(Strictify(o.val), Substitute(F, LaxToPlain(a.f)))
+    [] op = "laxf.map_arrow_witness" ->
+         IF ~LaxIsStrict(a.f) THEN IsNone(o)
+         ELSE LET F == FAbs(a.F)  out == o.val.out  f == LaxToPlain(a.f) IN
+              /\ IsSome(o) /\ WFLax(out) /\ LaxConsistent(out) /\ Iso(Strictify(out), Substitute(F, f))
+              /\ WFSegFF(o.val.witness) /\ o.val.witness.values.target = Len(out.nodes)
+              /\ WitnessOK(F, f, out, SegsFF(o.val.witness), CanonQuotMap(out).table)
+    [] OTHER -> FALSE
+
+(* ---- C14 optics ---- *)
+TAbs(T) == [fwd |-> FAbs(T.fwd), rev |-> FAbs(T.rev), residual |-> T.residual]
+OpticTypeOK(T, f, x) == StrictSrcType(x) = ILeave(T, SrcType(f)) /\ StrictTgtType(x) = ILeave(T, TgtType(f))
+AdaptTypeOK(T, f, x) == /\ StrictSrcType(x) = FType(T.fwd, SrcType(f)) \o FType(T.rev, TgtType(f))
+                        /\ StrictTgtType(x) = FType(T.fwd, TgtType(f)) \o FType(T.rev, SrcType(f))
+ConfOptic(op, a, o) ==
+  CASE op = "optic.map_arrow" ->
+         LET T == TAbs(a.optic)  f == Abs(a.f) IN
+         IsVal(o) /\ IsDiagram(o.val, OpticArrow(T, f)) /\ OpticTypeOK(T, f, o.val)
+    [] op = "optic.map_adapted" ->
+         LET T == TAbs(a.optic)  f == Abs(a.f)  c == OpticArrow(T, f) IN
+         /\ IsVal(o) /\ IsDiagram(o.val.optic, c) /\ OpticTypeOK(T, f, o.val.optic)
+         /\ IsDiagram(o.val.adapted, AdaptRef(T, c, SrcType(f), TgtType(f))) /\ AdaptTypeOK(T, f, o.val.adapted)
+    [] op = "optic.laws" ->
+         LET T == TAbs(a.optic)  f == Abs(a.f)  g == Abs(a.g)  v == o.val IN
+         /\ IsVal(o) /\ IsDiagram(v.Of, OpticArrow(T, f)) /\ IsDiagram(v.Og, OpticArrow(T, g))
+         /\ (IF Composable(f, g) THEN IsSome(v.O_fg) /\ IsSome(v.Of_Og) /\ IsoPair(v.O_fg.val, v.Of_Og.val) ELSE IsNone(v.O_fg))
+         /\ IsoPair(v.O_tensor, v.tensor_O)
+    \* derivative clause: adapted optic of a polynomial circuit evaluates to (f(x), J^T dy), and is monogamous
+    [] op = "optic.eval_adapted" ->
+         LET T == TAbs(a.optic)  f == Abs(a.f)  n == Len(f.s)  m == Len(f.t) IN
+         /\ IsVal(o) /\ AdaptTypeOK(T, f, o.val.adapted)
+         /\ IsDiagram(o.val.adapted, AdaptRef(T, OpticArrow(T, f), SrcType(f), TgtType(f)))
+         /\ o.val.mono = TRUE
+         /\ Len(o.val.outs) = Len(a.inputs)
+         /\ \A i \in 1 .. Len(a.inputs) :
+               LET x == SubSeq(a.inputs[i], 1, n)  dy == SubSeq(a.inputs[i], n + 1, n + m) IN
+               o.val.outs[i].tag = "some" /\ o.val.outs[i].val = EvalRef(f, x) \o RevDerivRef(f, x, dy)
+    [] op = "laxf.optic_map_arrow" ->
+         LET T == TAbs(a.optic)  f == Strictify(a.f) IN
+         IsVal(o) /\ WFLax(o.val) /\ LaxIsStrict(o.val) /\ Iso(LaxToPlain(o.val), OpticArrow(T, f))
+           /\ LaxSrcType(o.val) = ILeave(T, SrcType(f)) /\ LaxTgtType(o.val) = ILeave(T, TgtType(f))
+    [] op = "laxf.optic_map_adapted" ->
+         LET T == TAbs(a.optic)  f == Strictify(a.f) IN
+         IsVal(o) /\ WFLax(o.val) /\ LaxIsStrict(o.val)
+           /\ Iso(LaxToPlain(o.val), AdaptRef(T, OpticArrow(T, f), SrcType(f), TgtType(f)))
+           /\ LaxSrcType(o.val) = FType(T.fwd, SrcType(f)) \o FType(T.rev, TgtType(f))
+           /\ LaxTgtType(o.val) = FType(T.fwd, TgtType(f)) \o FType(T.rev, SrcType(f))
+    [] OTHER -> FALSE
+
+(* ---- C19 Var interface and forgetting ---- *)
+ConfVar(op, a, o) ==
+  CASE op = "var.script" ->
+         LET t == VBuild(a.script, a.srcs, a.tgts) IN
+         IF Leaks(a.script) THEN IsErr(o) /\ o.val = t          \* the shared state is handed back
+         ELSE IsOk(o) /\ o.val = t
+    [] op = "var.forget" \/ op = "var.forget_monogamous" ->
+         LET f == Strictify(a.f)  r == ForgetRef(f, op = "var.forget_monogamous") IN
+         /\ IsVal(o) /\ WFLax(o.val) /\ LaxConsistent(o.val) /\ Iso(Strictify(o.val), r)
+         /\ LaxSrcType(o.val) = SrcType(f) /\ LaxTgtType(o.val) = TgtType(f)          \* the type is preserved
+    [] op = "var.forget_eval" ->
+         LET f == Strictify(a.f)  r == ForgetRef(f, FALSE) IN
+         /\ IsVal(o) /\ WFLax(o.val.forgot) /\ LaxConsistent(o.val.forgot) /\ Iso(Strictify(o.val.forgot), r)
+         /\ (DepAcyclic(r) /\ SingleWriter(r) /\ CopyLike(f) /\ NodeAcyclic(f) =>
+               \A i \in 1 .. Len(a.inputs) : o.val.outs[i].tag = "some" /\ o.val.outs[i].val = EvalVarRef(f, a.inputs[i]))
+    [] OTHER -> FALSE
+
+(* =========================================================== C09-C11, C02, C04: lax *)
+\* pre-state of a stateful call: logged with the case (GEN) or the tracked state (recorded histories)
+HasPre(a) == "pre" \in DOMAIN a
+PreOf(st, a) == IF HasPre(a) THEN a.pre ELSE st
+Stepped(o, r) == o.tag = "val" /\ o.val = r.ret /\ o.post = r.st
+\* lax result compared after strictification (the two sides of C10)
+LaxIso(x, ref) == WFLax(x) /\ LaxConsistent(x) /\ Iso(Strictify(x), ref)
+SerdeOK(pre, j, back) ==
+  /\ back = pre
+  /\ DOMAIN j = {"sources", "targets", "hypergraph"} /\ DOMAIN j.hypergraph = {"nodes", "edges", "adjacency", "quotient"}
+  /\ j.sources = pre.sources /\ j.targets = pre.targets
+  /\ j.hypergraph.nodes = pre.nodes /\ j.hypergraph.edges = pre.edges
+  /\ Len(j.hypergraph.adjacency) = Len(pre.adj)
+  /\ \A i \in 1 .. Len(pre.adj) : /\ DOMAIN j.hypergraph.adjacency[i] = {"sources", "targets"}
+                                  /\ j.hypergraph.adjacency[i].sources = pre.adj[i].s
+                                  /\ j.hypergraph.adjacency[i].targets = pre.adj[i].t
+  /\ j.hypergraph.quotient = <<pre.ql, pre.qr>>
+ConfLax(op, st, a, o) ==
+  LET pre == PreOf(st, a) IN
+  CASE op = "lax.new_node" -> Stepped(o, LNewNode(pre, a.label))
+    [] op = "lax.new_edge" -> Stepped(o, LNewEdge(pre, a.x, a.s, a.t))
+    [] op = "lax.new_operation" -> Stepped(o, LNewOperation(pre, a.x, a.a, a.b))
+    [] op = "lax.add_edge_source" -> Stepped(o, LAddEdgeSource(pre, a.e, a.label))
+    [] op = "lax.add_edge_target" -> Stepped(o, LAddEdgeTarget(pre, a.e, a.label))
+    [] op = "lax.unify" -> IsVal(o) /\ o.post = LUnify(pre, a.v, a.w)
+    [] op = "lax.delete_nodes" ->
+         IF DelAccepts(a.ids, LN(pre)) THEN IsVal(o) /\ o.post = LDeleteNodesOpen(pre, a.ids).st ELSE o.tag = "panic"
+    [] op = "lax.h.delete_nodes" \/ op = "lax.h.delete_nodes_witness" ->
+         IF DelAccepts(a.ids, LN(pre))
+         THEN LET r == LDeleteNodesOpen(pre, a.ids) IN
+              /\ IsVal(o) /\ o.post = [r.st EXCEPT !.sources = pre.sources, !.targets = pre.targets]  \* interfaces are not part of the hypergraph
+              /\ (op = "lax.h.delete_nodes_witness" => o.val = r.ret)
+         ELSE o.tag = "panic"
+    [] op = "lax.delete_edges" \/ op = "lax.h.delete_edge" ->
+         IF DelAccepts(a.ids, LE(pre)) THEN IsVal(o) /\ o.post = LDeleteEdges(pre, a.ids) ELSE o.tag = "panic"
+    [] op = "lax.map_nodes" -> IsVal(o) /\ o.post = LMapNodes(pre, a.tbl)
+    [] op = "lax.map_edges" -> IsVal(o) /\ o.post = LMapEdges(pre, a.tbl)
+    [] op = "lax.with_nodes" -> OptIs(o, Len(a.nodes) = LN(pre), [pre EXCEPT !.nodes = a.nodes])
+    [] op = "lax.with_edges" -> OptIs(o, Len(a.edges) = LE(pre), [pre EXCEPT !.edges = a.edges])
+    [] op = "lax.quotient" \/ op = "lax.quotient_witness" -> QuotientRel(pre, o, o.post)
+    [] op = "lax.h.quotient" ->
+         \* the hypergraph's own quotient does not know the interfaces
+         LET blind == [pre EXCEPT !.sources = <<>>, !.targets = <<>>] IN
+         QuotientRel(blind, o, [o.post EXCEPT !.sources = <<>>, !.targets = <<>>])
+           /\ o.post.sources = pre.sources /\ o.post.targets = pre.targets
+    [] op = "lax.h.coequalizer" -> IsVal(o) /\ WFFF(o.val) /\ IsQuotientMap(pre, o.val)
+    [] op = "lax.is_strict" -> ValIs(o, LaxIsStrict(pre))
+    [] op = "lax.from_strict" -> ValIs(o, PlainToLax(Abs(a.f)))
+    [] op = "lax.to_strict" \/ op = "lax.to_open_hypergraph" ->
+         IF LaxIsStrict(pre) THEN ValIs(o, Pack(LaxToPlain(pre)))
+         ELSE IsVal(o) /\ IsDiagram(o.val, Strictify(pre))
+    [] op = "lax.h.to_hypergraph" -> ValIs(o, PackH(LaxToPlain(pre)))
+    [] op = "lax.roundtrip_strict" -> ValIs(o, a.f)
+    [] op = "lax.roundtrip_lax" -> IF LaxIsStrict(pre) THEN ValIs(o, pre) ELSE IsVal(o) /\ LaxIso(o.val, Strictify(pre))
+    [] op = "lax.empty" -> ValIs(o, LaxEmpty)
+    [] op = "lax.tensor" \/ op = "lax.tensor_bitor" -> ValIs(o, LTensor(a.f, a.g))
+    [] op = "lax.tensor3" -> /\ IsVal(o) /\ o.val.lhs = o.val.rhs /\ o.val.lhs = LTensor(LTensor(a.f, a.g), a.h)
+                             /\ o.val.ul = a.f /\ o.val.ur = a.f
+    \* C10: defined iff arities match (unchecked) / types match (checked); strict(f;g) iso strict(f);strict(g)
+    [] op = "lax.lax_compose" ->
+         IF LLaxComposeDefined(a.f, a.g)
+         THEN /\ IsSome(o) /\ WFLax(o.val)
+              /\ (LaxConsistent(a.f) /\ LaxConsistent(a.g) /\ Composable(Strictify(a.f), Strictify(a.g))
+                    => LaxIso(o.val, ComposeRef(Strictify(a.f), Strictify(a.g))))
+         ELSE IsNone(o)
+    [] op = "lax.compose" \/ op = "lax.compose_shr" ->
+         IF LComposeDefined(a.f, a.g)
+         THEN /\ IsSome(o) /\ WFLax(o.val)
+              /\ (LaxConsistent(a.f) /\ LaxConsistent(a.g) => LaxIso(o.val, ComposeRef(Strictify(a.f), Strictify(a.g))))
+         ELSE IsNone(o)
+    [] op = "lax.identity" -> IsVal(o) /\ LaxIso(o.val, IdentityRef(a.w))
+    [] op = "lax.twist" -> IsVal(o) /\ LaxIso(o.val, TwistRef(a.a, a.b))
+    [] op = "lax.spider" -> IF LSpiderDefined(a.s, a.t, a.w) THEN IsSome(o) /\ LaxIso(o.val, SpiderRef(a.s.table, a.t.table, a.w)) ELSE IsNone(o)
+    [] op = "lax.half_spider" -> IF a.s.target = Len(a.w) THEN IsSome(o) /\ LaxIso(o.val, SpiderRef(a.s.table, Arange(0, a.s.target), a.w)) ELSE IsNone(o)
+    [] op = "lax.dagger" -> ValIs(o, LDagger(a.f))
+    [] op = "lax.singleton" -> IsVal(o) /\ LaxIso(o.val, SingletonRef(a.x, a.a, a.b))
+    [] op = "lax.source" -> ValIs(o, LaxSrcType(a.f))
+    [] op = "lax.target" -> ValIs(o, LaxTgtType(a.f))
+    [] op = "lax.tensor_assign" -> IsVal(o) /\ o.post = LTensor(pre, a.g)
+    [] op = "lax.append" -> Stepped(o, LAppend(pre, a.g))
+    [] op = "lax.h.coproduct_assign" -> IsVal(o) /\ o.post = [LHyperCoproduct(pre, a.g) EXCEPT !.sources = pre.sources, !.targets = pre.targets]
+    [] op = "lax.serde_roundtrip" -> IsVal(o) /\ SerdeOK(pre, o.val.json, o.val.back)
+    [] OTHER -> FALSE
+
+(* =========================================================== dispatch *)
+ArrOps == {"arr.add", "arr.add_const", "arr.arange", "arr.argsort", "arr.bincount", "arr.concatenate", "arr.concatenate_s", "arr.connected_components", "arr.cumulative_sum", "arr.empty", "arr.fill", "arr.fill_s", "arr.from_slice", "arr.gather", "arr.gather_s", "arr.get", "arr.get_range", "arr.get_range_s", "arr.is_empty", "arr.len", "arr.max", "arr.mul_constant_add", "arr.quot_rem", "arr.repeat", "arr.scatter", "arr.scatter_assign", "arr.scatter_assign_constant", "arr.scatter_s", "arr.scatter_sub_assign", "arr.segmented_arange", "arr.segmented_sum", "arr.set_range", "arr.sort_by", "arr.sparse_bincount", "arr.sub", "arr.sum", "arr.to_range", "arr.zero"}
+FFOps == {"ff.coequalizer", "ff.coequalizer_universal", "ff.compose", "ff.compose_semifinite", "ff.compose_shr", "ff.constant", "ff.coproduct", "ff.coproduct_add", "ff.cumulative_sum", "ff.eq", "ff.identity", "ff.initial", "ff.inj0", "ff.inj1", "ff.inject0", "ff.inject1", "ff.injections", "ff.is_injective", "ff.new", "ff.source", "ff.target", "ff.tensor", "ff.tensor_bitor", "ff.terminal", "ff.to_initial", "ff.transpose", "ff.twist", "ff.universal_labels"}
+ICOps == {"ic.coproduct_ff", "ic.coproduct_sf", "ic.elements_ff", "ic.elements_sf", "ic.flatmap", "ic.flatmap_sources_ff", "ic.flatmap_sources_sf", "ic.from_semifinite_ff", "ic.from_semifinite_sf", "ic.indexed_values_ff", "ic.indexed_values_sf", "ic.initial", "ic.iter_ff", "ic.iter_sf", "ic.iter_slices", "ic.len_ff", "ic.map_indexes_ff", "ic.map_indexes_sf", "ic.map_semifinite", "ic.map_values", "ic.new_ff", "ic.new_sf", "ic.singleton_ff", "ic.singleton_sf", "ic.tensor", "ops.iter", "ops.len", "ops.new", "ops.singleton"}
+StrictOps == {"hyper.coequalize_vertices", "hyper.coproduct", "hyper.coproduct_add", "hyper.discrete", "hyper.empty", "hyper.in_degree", "hyper.is_acyclic", "hyper.is_discrete", "hyper.new", "hyper.out_degree", "hyper.tensor_operations", "law.assoc", "law.dagger_compose", "law.dagger_tensor", "law.hexagon", "law.interchange", "law.spider_fusion", "law.tensor_assoc", "law.tensor_unit", "law.twist_inverse", "law.twist_natural", "law.unit", "strict.compose", "strict.compose_shr", "strict.dagger", "strict.half_spider", "strict.identity", "strict.is_acyclic", "strict.is_monogamous", "strict.new", "strict.singleton", "strict.source", "strict.spider", "strict.target", "strict.tensor", "strict.tensor_bitor", "strict.tensor_operations", "strict.twist", "strict.unit"}
+GraphOps == {"arrow.is_convex_subgraph", "arrow.is_monomorphism", "arrow.new", "hook.converse", "hook.indegree", "hook.kahn", "hook.node_adjacency", "hook.operation_adjacency", "strict.eval", "strict.layer", "strict.layered_operations"}
+FunctorOps == {"functor.identity", "functor.laws", "functor.map_arrow", "functor.map_object", "laxf.dyn_map_arrow", "laxf.identity", "laxf.map_arrow_witness", "laxf.try_define_map_arrow"}
+OpticOps == {"laxf.optic_map_adapted", "laxf.optic_map_arrow", "optic.eval_adapted", "optic.laws", "optic.map_adapted", "optic.map_arrow"}
+VarOps == {"var.forget", "var.forget_eval", "var.forget_monogamous", "var.script"}
+LaxOps == {"lax.add_edge_source", "lax.add_edge_target", "lax.append", "lax.compose", "lax.compose_shr", "lax.dagger", "lax.delete_edges", "lax.delete_nodes", "lax.empty", "lax.from_strict", "lax.h.coequalizer", "lax.h.coproduct_assign", "lax.h.delete_edge", "lax.h.delete_nodes", "lax.h.delete_nodes_witness", "lax.h.quotient", "lax.h.to_hypergraph", "lax.half_spider", "lax.identity", "lax.is_strict", "lax.lax_compose", "lax.map_edges", "lax.map_nodes", "lax.new_edge", "lax.new_node", "lax.new_operation", "lax.quotient", "lax.quotient_witness", "lax.roundtrip_lax", "lax.roundtrip_strict", "lax.serde_roundtrip", "lax.singleton", "lax.source", "lax.spider", "lax.target", "lax.tensor", "lax.tensor3", "lax.tensor_assign", "lax.tensor_bitor", "lax.to_open_hypergraph", "lax.to_strict", "lax.twist", "lax.unify", "lax.with_edges", "lax.with_nodes"}
+ConfEvent(st, ev) ==
+  LET op == ev.op  a == ev.args  o == ev.obs IN
+  CASE op \in ArrOps -> ConfArr(op, a, o)
+    [] op \in FFOps -> ConfFF(op, a, o)
+    [] op \in ICOps -> ConfIC(op, a, o)
+    [] op \in StrictOps -> ConfStrict(op, a, o)
+    [] op \in GraphOps -> ConfGraph(op, a, o)
+    [] op \in FunctorOps -> ConfFunctor(op, a, o)
+    [] op \in OpticOps -> ConfOptic(op, a, o)
+    [] op \in VarOps -> ConfVar(op, a, o)
+    [] op \in LaxOps -> ConfLax(op, st, a, o)
+    [] OTHER -> FALSE
+
+\* state tracked across recorded histories: the logged post-state (re-synchronisation)
+NextTracked(st, ev) == IF ev.op \in LaxOps /\ "post" \in DOMAIN ev.obs THEN ev.obs.post ELSE st
+
+Classify(ev) ==
+  IF ev.obs.tag = "panic" THEN "panic"
+  ELSE IF ev.obs.tag = "unknown_op" THEN "unknown-op"
+  ELSE IF ev.op \in {"lax.quotient", "lax.h.quotient", "lax.quotient_witness"} /\ ev.obs.tag = "err" THEN "err-state-changed-or-unexpected"
+  ELSE "wrong-" \o ev.obs.tag
 =============================================================================
